@@ -621,6 +621,12 @@ fn run_leaf_inner(
             let mut first_bw: Option<(u64, usize, usize)> = None;
             let mut sum_bw: u64 = 0;
             let mut sum_write: u64 = 0;
+            if matches!(rec.cop, COp::Reopen) {
+                // the writer's resume point is not observable until its next write (a tail of
+                // fewer than 7 bytes in a block is skipped, not padded, by a restart), and the
+                // recovery's own GC entries are the first frames after it
+                fa.last_end_abs = None;
+            }
             for e in &rec.events {
                 match e {
                     Event::BlockWrite {
@@ -650,10 +656,6 @@ fn run_leaf_inner(
                     Event::Write { data, .. } => sum_write += data.len() as u64,
                     _ => {}
                 }
-            }
-            if matches!(rec.got, Outcome::Reopened) {
-                // the writer's resume point is not observable until its next write
-                fa.last_end_abs = None;
             }
             if mon.c15 && !matches!(rec.got, Outcome::Reopened | Outcome::Persisted) {
                 if let Some(b) = rec.bytes {
@@ -1235,7 +1237,7 @@ pub fn c17_leaf(env: &mut Env, leaf: &Leaf, variant: usize) {
                 property: "C17".into(),
                 signature: sig,
                 what,
-                case: json!({"engine":"c17","variant": match variant { 0 => "foreign-entries", 1 => "numbering-gaps", _ => "symlink-on-next-wal-name" },"seed_name":leaf.seed.name,"seed_ops":leaf.seed.ops,"ops":leaf.ops}),
+                case: json!({"engine":"c17","variant": match variant { 0 => "foreign-entries", 1 => "numbering-gaps", 2 => "symlink-on-next-wal-name", _ => "non-regular-entries-on-collected-wal-names" },"seed_name":leaf.seed.name,"seed_ops":leaf.seed.ops,"ops":leaf.ops}),
             });
         }
     });
@@ -1269,6 +1271,7 @@ fn c17_inner(stats: &mut Stats, dir: &std::path::Path, target: &std::path::Path,
         return Ok(());
     }
     let mut planted_name: Option<String> = None;
+    let mut collected_names: Vec<String> = vec![];
     let mut run = Run::start(dir, PolicyCfg::Default, 0, true, default_names()).map_err(|e| ("open-failed".to_string(), e))?;
     let mut all_events: Vec<Event> = std::mem::take(&mut run.open_events);
     let seed_len = leaf.seed.ops.len();
@@ -1334,6 +1337,24 @@ fn c17_inner(stats: &mut Stats, dir: &std::path::Path, target: &std::path::Path,
             foreign.extend(planted);
             stats.count("symlink_on_next_wal_name_cases", 1);
         }
+        if variant == 3 && i == seed_len {
+            // the oldest files have already been collected: a symlink and a sub-directory on
+            // collected numbers (valid WAL names below the first file in use)
+            let min = list_dir(dir).iter().filter_map(|f| wal_number(&f.0)).min().unwrap_or(0);
+            if min == 0 {
+                return Ok(());
+            }
+            let mut old = vec![(wal_name(min - 1), Foreign::Symlink(target.to_path_buf()))];
+            if min >= 2 {
+                old.push((wal_name(min - 2), Foreign::Dir(vec![("inner".to_string(), vec![1, 2, 3])])));
+            }
+            install_foreign(dir, &old);
+            for o in &old {
+                collected_names.push(o.0.clone());
+            }
+            foreign.extend(old);
+            stats.count("symlink_on_collected_wal_name_cases", 1);
+        }
         let op_final = Op::Reopen;
         let op: &Op = if is_final { &op_final } else if i < seed_len { &leaf.seed.ops[i] } else { leaf.ops[i - seed_len] };
         let rec = run.step(op);
@@ -1368,6 +1389,13 @@ fn c17_inner(stats: &mut Stats, dir: &std::path::Path, target: &std::path::Path,
             }
         } else {
             check_events(&rec.events, i, &planted_name)?;
+            for e in &rec.events {
+                if let Event::Unlink { name } | Event::Write { name, .. } | Event::SetLen { name, .. } | Event::Open { name, is_dir: false, .. } = e {
+                    if collected_names.contains(name) {
+                        return fail("foreign-entry-touched", format!("step {} {}: foreign entry {:?} (a non-regular entry on an already collected WAL number) was opened/written/resized/removed", i, op.short(), name));
+                    }
+                }
+            }
         }
         if rec.events.iter().any(|e| matches!(e, Event::Unlink { .. })) {
             stats.count("calls_deleting_wal_files", 1);
